@@ -22,6 +22,7 @@ type State struct {
 	ctr    string
 	ghost  map[string]string // ghost variables (held locks, call counters)
 	events map[string]string // family -> id of the last havoc/merge event (for heap keys not yet materialised)
+	dirty  map[string]bool   // type key -> an invariant field of that type was stored to since the last havoc of it
 }
 
 type heapEvent struct {
@@ -37,6 +38,12 @@ func (s *State) clone() *State {
 	}
 	for k, v := range s.events {
 		n.events[k] = v
+	}
+	if len(s.dirty) > 0 {
+		n.dirty = make(map[string]bool, len(s.dirty))
+		for k, v := range s.dirty {
+			n.dirty[k] = v
+		}
 	}
 	for k, v := range s.ghost {
 		n.ghost[k] = v
@@ -197,6 +204,13 @@ func (ex *Exec) havocFamilies(st *State, fams map[string]bool) {
 		}
 		st.events[f] = ev
 		ex.havocked[f] = true
+		if strings.HasPrefix(f, "H:") && st.dirty != nil {
+			// H:<typeShort>.<field>
+			t := f[2:]
+			if i := strings.LastIndex(t, "."); i >= 0 {
+				delete(st.dirty, t[:i])
+			}
+		}
 	}
 }
 
@@ -253,6 +267,16 @@ func (ex *Exec) merge(states []*State, conds []string) *State {
 		}
 		ex.events[ev] = he
 		out.events[f] = ev
+	}
+	for _, s := range states {
+		for k, v := range s.dirty {
+			if v {
+				if out.dirty == nil {
+					out.dirty = map[string]bool{}
+				}
+				out.dirty[k] = true
+			}
+		}
 	}
 	// counter
 	c := states[len(states)-1].ctr
